@@ -58,7 +58,7 @@ func layoutDims(l pdfw.Layout, o pdfw.DocOpts, revs int) map[string]string {
 		"numbering": l.Numbering, "shuffle": fmt.Sprint(l.Shuffle), "resind": fmt.Sprint(l.ResIndirect),
 		"depth": fmt.Sprint(o.TreeDepth), "inherit": o.Inherit, "override": fmt.Sprint(o.Override), "revs": fmt.Sprint(revs),
 		"xrefpred": fmt.Sprint(l.XRefPredictor), "extends": fmt.Sprint(l.ObjStmExtends && l.ObjStm != "none"),
-		"comments": fmt.Sprint(l.Comments), "quotes": fmt.Sprint(l.Quotes), "tjkern": fmt.Sprint(l.TJKern), "forms": fmt.Sprint(l.Forms),
+		"comments": fmt.Sprint(l.Comments), "quotes": fmt.Sprint(l.Quotes), "tjkern": fmt.Sprint(l.TJKern), "forms": fmt.Sprint(l.Forms), "boxind": fmt.Sprint(l.BoxIndirect),
 	}
 }
 
@@ -80,7 +80,7 @@ func makeCase(c *fw.Ctx, id string) *Case {
 	case "dim":
 		// vary exactly one dimension away from the baseline
 		full := pdfw.RandomLayout(r, 1)
-		dims := []string{"eol", "tight", "xref", "objstm", "len", "filter", "split", "splitnows", "big", "numbering", "shuffle", "resind", "depth", "inherit", "override", "revs", "contarr", "xrefpred", "extends", "comments", "quotes", "tjkern", "forms"}
+		dims := []string{"eol", "tight", "xref", "objstm", "len", "filter", "split", "splitnows", "big", "numbering", "shuffle", "resind", "depth", "inherit", "override", "revs", "contarr", "xrefpred", "extends", "comments", "quotes", "tjkern", "forms", "boxind"}
 		switch d := dims[idx%len(dims)]; d {
 		case "eol":
 			cs.Lay.EOL = []string{"\r\n", "\r"}[r.Intn(2)]
@@ -136,6 +136,8 @@ func makeCase(c *fw.Ctx, id string) *Case {
 		case "xrefpred":
 			cs.Lay.XRef = []string{"stream"}
 			cs.Lay.XRefPredictor = true
+		case "boxind":
+			cs.Lay.BoxIndirect = true
 		case "comments":
 			cs.Lay.Comments = true
 		case "quotes":
@@ -539,7 +541,7 @@ func Run(c *fw.Ctx) {
 	for i := 0; i < c.N(12, 40); i++ {
 		ids = append(ids, fmt.Sprintf("base:%d", i))
 	}
-	for i := 0; i < c.N(23*4, 23*40); i++ {
+	for i := 0; i < c.N(24*4, 24*40); i++ {
 		ids = append(ids, fmt.Sprintf("dim:%d", i))
 	}
 	for i := 0; i < c.N(400, 20000); i++ {
